@@ -596,10 +596,15 @@ def tfrBlock (own : TfrOwn) (k : Kind) (t : Nat) (a : Arg) : List Call :=
   ++ (if anyTags own.testTags then [.tags own.testTags.1 own.testTags.2] else [])
   ++ [.add k t a, .stopTest t]
 
+/-- failfast set on the forwarder itself: the target is told to stop after a bad outcome -/
+def tfrStops (own : TfrOwn) (k : Kind) : List Call :=
+  if own.tt.failfast && !k.passing then [.stop] else []
+
 def tfrStep (I : Iface σ) (own : TfrOwn) (inner : σ) (c : Call) : TfrOwn × σ :=
   match c with
   | .add k t a =>
-      ({ own with testTags := (0, 0), testStart := .none }, (tfrBlock own k t a).foldl I.step inner)
+      -- `_stop_if_failfast()` after the block of an error / failure / unexpected success
+      ({ own with testTags := (0, 0), testStart := .none }, (tfrBlock own k t a ++ tfrStops own k).foldl I.step inner)
   | .startTestRun =>
       ({ tt := ttStep own.tt c, testStart := .none, inTest := false, globalTags := (0, 0), testTags := (0, 0) },
        I.step inner c)
